@@ -332,6 +332,55 @@ def unitsOf : Nat → Nat → Nat → List Nat → List (Nat × Nat × List Ann)
 def chunkUnits (bytes : List Nat) : List (Nat × Nat × List Ann) :=
   if bytes.isEmpty then [] else unitsOf (bytes.length + 1) 0 0 bytes
 
+/-! ### Function flags: a frame that reads non-locals is created with them
+
+`run_make_function` gives the new function the creating frame's non-locals only when the
+`NON_LOCAL_ACCESS` flag (bit 3) of the `Function` instruction is set; a function created without it
+runs in a frame whose `non_locals` is `None`. In such a frame `LoadNonLocal` cannot see the module's
+exports or wildcard imports, and creating a nested function whose own flag is set raises the
+internal `UnexpectedError` (`non_locals.is_none()`). So: the body of a `Function` instruction may
+contain `LoadNonLocal`, or a `Function` instruction with the flag, only if its own flag is set.
+(The top-level unit and skipped bodies have no creating instruction: nothing is demanded.) -/
+
+def nonLocalFlag (flags : Nat) : Bool := (flags / 8) % 2 == 1
+
+/-- the instructions of a unit (nested bodies excluded) need the frame's non-locals -/
+def needsNonLocals (items : List Ann) : Bool :=
+  items.any fun a => a.ins.op = .LoadNonLocal || (a.ins.op = .Function && nonLocalFlag (argAt a.ins 4))
+
+/-- flags of the `Function` instruction that creates the nested unit `s` (`none`: a skipped body) -/
+def ownerFlags (items : List Ann) (s : Sub) : Option Nat :=
+  match items.find? (fun a => a.next == s.base) with
+  | some a => if a.ins.op = .Function then some (argAt a.ins 4) else none
+  | none => none
+
+def flagsUnit : Nat → Nat → Option Nat → List Nat → Bool
+  | 0, _, _, _ => false
+  | fuel + 1, base, own, bs =>
+    match sweep (bs.length + 1) base bs with
+    | none => false
+    | some (items, subs) =>
+      (match own with
+        | some f => !needsNonLocals items || nonLocalFlag f
+        | none => true)
+      && subs.all (fun s => flagsUnit fuel s.base (ownerFlags items s) s.bytes)
+
+def flagsOk (bytes : List Nat) : Bool :=
+  bytes.isEmpty || flagsUnit (bytes.length + 1) 0 none bytes
+
+/-- first unit (its first pc) whose creating instruction lacks the flag its code needs -/
+def explainFlags : Nat → Nat → Option Nat → List Nat → Option String
+  | 0, base, _, _ => some s!"fuel@{base}"
+  | fuel + 1, base, own, bs =>
+    match sweep (bs.length + 1) base bs with
+    | none => some s!"undecodable-or-function-body-out-of-range@unit{base}"
+    | some (items, subs) =>
+      let here := match own with
+        | some f => !needsNonLocals items || nonLocalFlag f
+        | none => true
+      if !here then some s!"function-reads-non-locals-without-NON_LOCAL_ACCESS-flag@unit{base}"
+      else subs.findSome? (fun s => explainFlags fuel s.base (ownerFlags items s) s.bytes)
+
 /-! ### Diagnostics (driver only; the verdict is `wfChunk`) -/
 
 def explainFrom (rc : Nat) (consts : List CKind) : List Ann → List Ann → Option String
